@@ -28,7 +28,7 @@ struct Obs {
     utf8_err: Option<(usize, Option<usize>)>, e032_span: Option<(usize, usize)>, max_depth: usize,
     codes: Vec<String>, wcodes: Vec<String>, multiline_fix: bool,
     /// labels of `invalid regular expression` errors that do not lie inside any REGEXP token of the CST
-    re_outside: usize, cfg: u8,
+    re_outside: usize, cfg: u8, flaky: bool,
 }
 
 fn declared_rules(src: &[u8]) -> (Vec<String>, usize, Vec<(usize, usize)>) {
@@ -144,7 +144,7 @@ fn obs_from_json(s: &str) -> Option<Obs> {
         declared: strs(&v["declared"])?, built: strs(&v["built"])?, ignored: strs(&v["ignored"])?, ast_rules: strs(&v["ast_rules"]),
         utf8_err: v["utf8_err"].as_array().map(|a| (a[0].as_u64().unwrap() as usize, a[1].as_u64().map(|x| x as usize))),
         e032_span: v["e032_span"].as_array().map(|a| (a[0].as_u64().unwrap() as usize, a[1].as_u64().unwrap() as usize)),
-        max_depth: v["max_depth"].as_u64()? as usize, codes: strs(&v["codes"])?, wcodes: strs(&v["wcodes"]).unwrap_or_default(), multiline_fix: v["multiline_fix"].as_bool().unwrap_or(false), re_outside: v["re_outside"].as_u64().unwrap_or(0) as usize, cfg: v["cfg"].as_u64().unwrap_or(0) as u8,
+        max_depth: v["max_depth"].as_u64()? as usize, codes: strs(&v["codes"])?, wcodes: strs(&v["wcodes"]).unwrap_or_default(), multiline_fix: v["multiline_fix"].as_bool().unwrap_or(false), re_outside: v["re_outside"].as_u64().unwrap_or(0) as usize, cfg: v["cfg"].as_u64().unwrap_or(0) as u8, flaky: false,
     })
 }
 
@@ -158,7 +158,10 @@ fn child(file: &str, from: usize) -> i32 {
                 // path relative to the repository root, wherever the repository is checked out
                 let f = l.file();
                 let rel = ["/lib/src/", "/parser/src/", "/fmt/src/", "/macros/src/", "/capi/src/", "/proto/src/"].iter()
-                    .filter_map(|m| f.find(m).map(|i| &f[i + 1..])).next().unwrap_or(f);
+                    .filter_map(|m| f.find(m).map(|i| &f[i + 1..])).next()
+                    // a dependency: <crate>-<version>/src/.. without the registry directory
+                    .or_else(|| f.find("/registry/src/").and_then(|i| f[i + 14..].find('/').map(|j| &f[i + 14 + j + 1..])))
+                    .unwrap_or(f);
                 *PANIC_LOC.lock().unwrap() = rel.to_string();
             }
         }));
@@ -181,6 +184,27 @@ fn child(file: &str, from: usize) -> i32 {
 
 /// parent: run all cases through children; a crash/hang is attributed to the case in progress
 fn run_in_children(cases: &[(u8, Vec<u8>)], dir: &Path) -> Vec<Obs> {
+    let limits: Vec<u64> = cases.iter().map(|c| time_limit(&c.1)).collect();
+    let mut res = run_in_children_once(cases, &limits, dir);
+    // a crash or a time-out must be reproducible: run the case again on its own (machine load, OOM killer)
+    for i in 0..cases.len() {
+        if res[i].crashed || res[i].timed_out {
+            let again = run_in_children_once(&cases[i..i + 1], &limits[i..i + 1], dir).remove(0);
+            if !(again.crashed || again.timed_out) { res[i] = again; res[i].flaky = true; }
+        }
+    }
+    res
+}
+
+/// seconds a case may take. Compiling a huge fixed hex jump allocates about 280 MB per second (known
+/// finding): such inputs get a short limit so that the check does not exhaust the machine's memory
+fn time_limit(src: &[u8]) -> u64 {
+    let s = String::from_utf8_lossy(src);
+    let huge = s.split('[').skip(1).any(|t| { let d: String = t.chars().take_while(|c| c.is_ascii_digit()).collect(); d.len() >= 9 });
+    if huge { 8 } else { CASE_TIMEOUT_S }
+}
+
+fn run_in_children_once(cases: &[(u8, Vec<u8>)], limits: &[u64], dir: &Path) -> Vec<Obs> {
     let file = dir.join("batch.hex");
     std::fs::write(&file, cases.iter().map(|c| format!("{} {}", c.0, hex(&c.1))).collect::<Vec<_>>().join("\n") + "\n").unwrap();
     let exe = std::env::current_exe().unwrap();
@@ -195,7 +219,8 @@ fn run_in_children(cases: &[(u8, Vec<u8>)], dir: &Path) -> Vec<Obs> {
         let mut current: Option<usize> = None;
         let mut timed_out = false;
         loop {
-            match rx.recv_timeout(Duration::from_secs(CASE_TIMEOUT_S)) {
+            let limit = current.map(|i| limits[i]).unwrap_or(CASE_TIMEOUT_S);
+            match rx.recv_timeout(Duration::from_secs(limit)) {
                 Ok(l) => {
                     if let Some(r) = l.strip_prefix("BEGIN ") { current = r.trim().parse().ok(); }
                     else if let Some(r) = l.strip_prefix("RESULT ") {
@@ -430,7 +455,9 @@ fn run(args: &[String]) -> i32 {
     for (src, cfg) in [(&b"rule r { strings: $a = /a{}b{}(/ condition: $a }"[..], 1u8), (b"rule r { strings: $a = /a{}b(/ condition: $a }", 1),
                        (b"rule r { strings: $a = /\\g{x}[z-a]/ condition: $a }", 1),
                        // known findings (relaxed_re_syntax): slice in the middle of a multi-byte character; no `{` to escape
-                       ("rule r { strings: $a = /(y|z)a{\u{e9}\\d/s condition: $a }".as_bytes(), 1), (b"rule r { strings: $a = /+ \\x41/i condition: $a }", 1), (b"rule r { strings: $a = { 00 00 00 00 } condition: $a }", 2),
+                       ("rule r { strings: $a = /(y|z)a{\u{e9}\\d/s condition: $a }".as_bytes(), 1), (b"rule r { strings: $a = /+ \\x41/i condition: $a }", 1),
+                       // known finding (relaxed_re_syntax): the span compensation ignores WHERE the repairs were made
+                       ("rule r { strings: $a = /\\%\u{20ac}(a{}/ condition: $a }".as_bytes(), 1), (b"rule r { strings: $a = { 00 00 00 00 } condition: $a }", 2),
                        (b"rule Bad : t9 { condition: true }", 3), (b"import \"pe\" import \"math\" rule r { condition: pe.is_pe and math.abs(1) == 1 } rule q { condition: r }", 4),
                        (b"rule r { strings: $a = \"abc\" condition: $a and for all i in (0..filesize) : ( i > 0 ) }", 2)] {
         cases.push(("corpus_cfg".to_string(), src.to_vec(), cfg));
@@ -522,6 +549,7 @@ fn run(args: &[String]) -> i32 {
             spec_violations(o).iter().map(|s| json_str(s)).collect::<Vec<_>>().join(","));
         stats.inc(&format!("stream_{}", stream));
         stats.inc(&format!("cfg_{}", cfg_name(*cfg)));
+        if o.flaky { stats.inc("crash_or_timeout_not_reproduced"); }
         if o.crashed { stats.inc("child_crashed"); } if o.timed_out { stats.inc("child_timed_out"); } if o.panicked.is_some() { stats.inc("panicked"); }
         if o.add_ok { stats.inc("accepted"); } else { stats.inc("rejected"); }
         if o.utf8_err.is_some() { stats.inc("invalid_utf8"); }
@@ -546,7 +574,7 @@ fn run(args: &[String]) -> i32 {
 fn spec_violations(o: &Obs) -> Vec<String> {
     let mut v = vec![];
     if o.crashed { v.push("the process died while compiling this source (stack overflow / abort)".to_string()); return v; }
-    if o.timed_out { v.push(format!("no answer within {} s", CASE_TIMEOUT_S)); return v; }
+    if o.timed_out { v.push("no answer within the time limit".to_string()); return v; }
     if let Some(m) = &o.panicked { v.push(format!("panic: {}", m)); return v; }
     if !o.build_ok { v.push("build() did not complete".into()); }
     if !o.render_ok { v.push("a diagnostic rendered to an empty string".into()); }
